@@ -132,31 +132,34 @@ theorem AFTER_ne_nil : AFTER ≠ [] := by decide
 @[simp] theorem readText_binary (b : List Nat) : readText (some (.binary b)) = [] := rfl
 @[simp] theorem readText_none : readText none = [] := rfl
 
-theorem writeOne_static {cs : CodeSpec} {t : Text} (h : isSub STATIC t = true) :
-    writeOne cs (some (.text t)) = some (.text t) := by
-  simp [writeOne, readText, h]
+@[simp] theorem isStaticC_text (t : Text) : isStaticC (some (.text t)) = isSub STATIC t := rfl
+@[simp] theorem isStaticC_none : isStaticC none = false := rfl
+
+theorem writeOne_static {cs : CodeSpec} {c : Option Content} (h : isStaticC c = true) :
+    writeOne cs c = c := by
+  simp [writeOne, h]
 
 theorem writeOne_after {cs : CodeSpec} {c : Option Content} {pre rest : Text}
-    (hs : isSub STATIC (readText c) = false) (ha : splitOnce AFTER (readText c) = some (pre, rest)) :
+    (hs : isStaticC c = false) (ha : splitOnce AFTER (readText c) = some (pre, rest)) :
     writeOne cs c = some (.text (pre ++ AFTER ++ ['\n'] ++ cs.render (readText c))) := by
   simp [writeOne, hs, ha]
 
 theorem writeOne_plain {cs : CodeSpec} {c : Option Content}
-    (hs : isSub STATIC (readText c) = false) (ha : isSub AFTER (readText c) = false) :
+    (hs : isStaticC c = false) (ha : isSub AFTER (readText c) = false) :
     writeOne cs c = some (.text (cs.render (readText c))) := by
   have := (splitOnce_none_iff AFTER AFTER_ne_nil _).mpr ha
   simp [writeOne, hs, this]
 
-theorem foldl_static (outs : List CodeSpec) {t : Text} (h : isSub STATIC t = true) :
-    outs.foldl (fun c cs => writeOne cs c) (some (.text t)) = some (.text t) := by
+theorem foldl_static (outs : List CodeSpec) {c : Option Content} (h : isStaticC c = true) :
+    outs.foldl (fun c cs => writeOne cs c) c = c := by
   induction outs with
   | nil => rfl
   | cons o os ih => simp [List.foldl, writeOne_static h, ih]
 
-/-- C10 core: a static-marked text file is a fixed point of generation at its path. -/
-theorem genAt_static (outs : List CodeSpec) (scope : Bool) {t : Text} (h : isSub STATIC t = true) :
-    genAt outs scope (some (.text t)) = some (.text t) := by
-  simp [genAt, foldl_static outs h, isStaticC, h]
+/-- C10 core: a file that carries the static directive — text or not — is a fixed point of generation at its path. -/
+theorem genAt_static (outs : List CodeSpec) (scope : Bool) {c : Option Content} (h : isStaticC c = true) :
+    genAt outs scope c = c := by
+  simp [genAt, foldl_static outs h, h]
 
 theorem suppresses_of_no_after {t : Text} (h : isSub AFTER t = false) : suppresses t = false := by
   have := (splitOnce_none_iff AFTER AFTER_ne_nil _).mpr h
@@ -205,9 +208,9 @@ theorem writeOne_idem (cs : CodeSpec) (c0 : Option Content) (hmf : MarkerFree cs
     (hres : ∀ pre rest, splitOnce AFTER (readText c0) = some (pre, rest) →
       isSub STATIC (pre ++ AFTER ++ ['\n'] ++ cs.render (readText c0)) = false) :
     writeOne cs (writeOne cs c0) = writeOne cs c0 := by
-  cases hs : isSub STATIC (readText c0) with
+  cases hs : isStaticC c0 with
   | true =>
-    have : writeOne cs c0 = c0 := by simp [writeOne, hs]
+    have : writeOne cs c0 = c0 := writeOne_static hs
     rw [this, this]
   | false =>
     cases ha : splitOnce AFTER (readText c0) with
@@ -259,9 +262,9 @@ theorem regen_partial1 (cs : CodeSpec) (c0 c1 : Option Content) (h : Partial1 cs
       rw [writeOne_plain (by simpa using h1) (by simpa using h2)]
       simp only [readText_text, readText_binary]
       rw [render_of_no_after cs h2, render_of_no_after cs ha]
-    | tornBinary bytes hs =>
+    | tornBinary bytes hs hb =>
       rw [writeOne_plain hs ha]
-      rw [writeOne_plain (by simp; decide) (by simp; decide)]
+      rw [writeOne_plain (by simpa [isStaticC, Content.contains] using hb) (by simp; decide)]
       simp only [readText_text, readText_binary]
       rw [render_of_no_after cs ha, render_of_no_after cs (t := []) (by decide)]
 
